@@ -436,7 +436,7 @@ def run(ctx):
             ctx.violation(mech, "%s [seed %d, %s %r]" % (what, seed, info['mode'], info['states']), info)
     if not ctx.quick:
         ctx.exhaustive = done_slice
-    ctx.floor_distinct = 150 if ctx.quick else 4600
-    ctx.floor_counters = {"statements_judged": 300, "hosts_that_received_compared": 300, "no_host_available_outcomes_checked": 100,
-                          "explicit_host_statements": 100, "state_busy": 50, "state_sendfail": 50, "state_missing": 50, "state_shut": 50,
-                          "state_noconn": 50, "state_err_next": 50, "state_err_same": 50}
+    ctx.floor_distinct = 120 if ctx.quick else 2000      # the complete enumeration has 4689; ctx.exhaustive says whether it was finished
+    ctx.floor_counters = {"statements_judged": 200, "hosts_that_received_compared": 200, "no_host_available_outcomes_checked": 60,
+                          "explicit_host_statements": 60, "state_busy": 30, "state_sendfail": 30, "state_missing": 30, "state_shut": 30,
+                          "state_noconn": 30, "state_err_next": 30, "state_err_same": 30}
